@@ -244,6 +244,15 @@ C05(pre, env, req, resp, post) ==
 
 -----------------------------------------------------------------------------
 (* C06  Exit liveness: the owner's plain cancel and an executor's expire always work *)
+\* the chain carries a response out only if each message is one it accepts: a bank send of a positive
+\* amount of a denomination that is not a restricted marker, or a marker transfer of a positive amount of
+\* one that is; otherwise the whole request aborts and the exit has not happened
+Executable(env, resp) ==
+  \A i \in DOMAIN resp.msgs : LET m == resp.msgs[i] IN
+     /\ m.amt > 0
+     /\ m.kind \in {"bank", "marker"}
+     /\ (m.kind = "marker") <=> Restricted(env, m.denom)
+
 C06(pre, env, req, resp, post) ==
   IF req.funds # <<>> \/ ~pre.cfg.set THEN {}
   ELSE IF req.kind \in {"cancel_ask", "expire_ask"} /\ IdParses(req.id) /\ req.id \in DOMAIN pre.asks THEN
@@ -253,7 +262,7 @@ C06(pre, env, req, resp, post) ==
         xs ==    Xfer(TRUE, Contract, a.owner, a.base, a.size)
               \o Xfer(a.class = "ready", Contract, a.approver, pre.cfg.base, a.size)
         name == IF req.kind = "cancel_ask" THEN "C06.owner_cancel" ELSE "C06.executor_expire"
-    IN If(entitled => (resp.ok /\ DeltasAre(req, resp, xs) /\ req.id \notin DOMAIN post.asks), name)
+    IN If(entitled => (resp.ok /\ Executable(env, resp) /\ DeltasAre(req, resp, xs) /\ req.id \notin DOMAIN post.asks), name)
   ELSE IF req.kind \in {"cancel_bid", "expire_bid"} /\ IdParses(req.id) /\ req.id \in DOMAIN pre.bids
           /\ pre.bids[req.id].fmt = "v3" THEN
     LET b == pre.bids[req.id]
@@ -261,7 +270,7 @@ C06(pre, env, req, resp, post) ==
                     ELSE req.sender \in Range(pre.cfg.executors)
         xs == Xfer(TRUE, Contract, b.owner, b.quote, RemQ(b) + RemF(b))
         name == IF req.kind = "cancel_bid" THEN "C06.owner_cancel" ELSE "C06.executor_expire"
-    IN If(entitled => (resp.ok /\ DeltasAre(req, resp, xs) /\ req.id \notin DOMAIN post.bids), name)
+    IN If(entitled => (resp.ok /\ Executable(env, resp) /\ DeltasAre(req, resp, xs) /\ req.id \notin DOMAIN post.bids), name)
   ELSE {}
 
 -----------------------------------------------------------------------------
@@ -597,10 +606,13 @@ C16(pre, env, req, resp, post) ==
           LET there == IdParses(req.id) /\ req.id \in DOMAIN pre.asks IN
           If(resp.ok <=> there, "C16.get_order")
           \cup If((resp.ok /\ there) => resp.result = [kind |-> "ask", v |-> pre.asks[req.id]], "C16.get_order")
+          \* a completely filled / cancelled order is not reported any more
+          \cup If((resp.ok /\ resp.result.kind = "ask") => resp.result.v.size > 0, "C16.get_order")
         ELSE IF req.kind = "query_bid" THEN
           LET there == IdParses(req.id) /\ req.id \in DOMAIN pre.bids /\ pre.bids[req.id].fmt = "v3" IN
           If(resp.ok <=> there, "C16.get_order")
           \cup If((resp.ok /\ there) => resp.result = [kind |-> "bid", v |-> pre.bids[req.id]], "C16.get_order")
+          \cup If((resp.ok /\ resp.result.kind = "bid") => RemB(resp.result.v) > 0, "C16.get_order")
         ELSE IF req.kind = "query_cfg" THEN
           If(resp.ok <=> pre.cfg.set, "C16.get_cfg")
           \cup If(resp.ok => resp.result = [kind |-> "cfg", v |-> pre.cfg], "C16.get_cfg")
@@ -693,6 +705,8 @@ C17(pre, env, req, resp, post) ==
                 /\ Has(at, "price") /\ at["price"] = req.price.n
                 /\ Has(at, "ask_fee") /\ at["ask_fee"] = afee
                 /\ Has(at, "bid_fee") /\ at["bid_fee"] \in bfees
+                \* a fee that has no account to go to cannot have been paid
+                /\ (~cfg.askfee.some => at["ask_fee"] = 0) /\ (~cfg.bidfee.some => at["bid_fee"] = 0)
                 /\ (distinct => (at["ask_fee"] = Delta(req, resp, cfg.askfee.acct, b.quote)
                                  /\ at["bid_fee"] = Delta(req, resp, cfg.bidfee.acct, b.quote))),
                 "C17.match_amounts")
